@@ -76,7 +76,7 @@ type heldRec struct {
 
 func setup() *world {
 	f := verifenv.NewFull(100)
-	unbondingEpochs = 1
+	unbondingEpochs = int64(verifrt.Param("unbonding", 1))
 	if verifrt.Param("unbonding_choice", 0) == 1 {
 		unbondingEpochs = int64(verifrt.Choice("unbonding_epochs", 2))
 	}
